@@ -1,3 +1,4 @@
+import Gtree.Lemmas.EntryFacts
 import Gtree.Lemmas.SourceRefines
 import Gtree.Model.Api
 import Gtree.Lemmas.MkdirExact
@@ -221,4 +222,14 @@ theorem C06_exact_massive (f : Fmt) (exts : List Bytes) (ts : List Bytes) (roots
   · intro i hi k hk; rw [hsame]; exact hex.keep i hi k hk
   · intro hne i hi hn; rw [hsame]; exact hex.make hne i hi hn
   · intro p h1 h2; rw [hsame]; exact hex.frame p h1 h2
+end Gtree
+
+namespace Gtree
+/-- Fact regenerated from the sources on this run: every Mkdir entry point, under both of its names, builds its configuration with `newConfigWithoutEncode`: an encoding option in the list changes nothing about what is created. -/
+theorem C06_facts_entry_points_configuration : Facts.entryConfig = expectedEntryConfig := entryConfig_as_expected
+
+/-- Fact regenerated from the sources on this run: every deprecated alias (`Output`, `Mkdir`, `Verify`, `Walk`,
+    `OutputProgrammably`, `MkdirProgrammably`, `VerifyProgrammably`, `WalkProgrammably`, `WalkIterProgrammably`) has, word for
+    word, the body of the function that replaces it. -/
+theorem C06_facts_aliases_identical : Facts.aliasBodiesEqual.all (fun e => e.2) = true := aliases_identical
 end Gtree
